@@ -74,7 +74,35 @@ TYPESETS = {
             "Y": "int", "S": "float", "R": "str", "CR": "int"},
     "iter": {"sync": " -> Iterator[int]", "async": " -> AsyncIterator[int]", "co": " -> int", "Y": "int", "S": None, "R": None, "CR": "int"},
 }
-PYTYPES = {"Leaf": faults.Leaf, "Leaf2": faults.Leaf2, "KeyLeaf": faults.KeyLeaf, "int": int, "float": float, "str": str}
+class _Types(dict):
+    def __missing__(self, k):
+        if k == "PosInt":
+            return posint()
+        raise KeyError(k)
+
+
+PYTYPES = _Types({"Leaf": faults.Leaf, "Leaf2": faults.Leaf2, "KeyLeaf": faults.KeyLeaf, "int": int, "float": float, "str": str})
+
+
+_POSINT = {}
+
+
+def posint():
+    """class PosInt(int, Rule): ge = 0 -- the type of the surplus positional parameters in the richer signature."""
+    if "t" not in _POSINT:
+        from utype import Rule
+        _POSINT["t"] = type("PosInt", (int, Rule), {"ge": 0, "__module__": "verif_c08_types"})
+    return _POSINT["t"]
+
+
+def ref_extras(extra, ts):
+    """The ideal conversion of the surplus positional values and of the keyword-only parameter (default 3)."""
+    if extra is None:
+        return (), {}
+    rest, scale = extra
+    rest = tuple(_conv(x, "PosInt") for x in rest) if ts.get("A", "Leaf") else tuple(rest)
+    scale = 3 if scale is None else _conv(scale, "int")
+    return rest, {"scale": scale}
 
 
 def eff_ts(plan):
@@ -111,8 +139,12 @@ dec_sync, dec_async, dec_co = K.dec_sync, K.dec_async, K.dec_co
 """
     elif ctx == "class_deco":
         tail = f"""
+def raw_bare(n=utype.Param(7, ge=0)):
+    return n
+
 @utype.parse(eager={eager}{opt})
 class K:
+    bare = staticmethod(raw_bare)      # declared through a Param default only, no annotation at all
     dec_sync = staticmethod(raw_sync)
     dec_async = staticmethod(raw_async)
     dec_co = staticmethod(raw_co)
@@ -125,17 +157,21 @@ dec_sync = utype.parse(raw_sync, eager={eager}{opt})
 dec_async = utype.parse(raw_async, eager={eager}{opt})
 dec_co = utype.parse(raw_co, eager={eager}{opt})
 """
+    rich = bool(plan.get("rich"))
+    sig = "a: Leaf, key: int = 0, *rest: PosInt, scale: int = utype.Param(3)" if rich else "a: Leaf, key: int = 0"
+    ent = '["entered", cn(a), cn(list(rest)), cn(scale)]' if rich else '["entered", cn(a)]'
     return f'''
 import utype, asyncio
 from typing import Generator, Iterator, AsyncGenerator, AsyncIterator
 from sim.faults import Leaf, Leaf2, KeyLeaf
-from props.c08 import CTX, val, cn, EXC
+from props.c08 import CTX, val, cn, EXC, posint
+PosInt = posint()
 
 
-def raw_sync(a: Leaf, key: int = 0){ts["sync"]}:
+def raw_sync({sig}){ts["sync"]}:
     c = CTX[key]
     log = c["log"]
-    log.append(["entered", cn(a)])
+    log.append({ent})
     try:
         for act in c["script"]:
             k = act[0]
@@ -150,10 +186,10 @@ def raw_sync(a: Leaf, key: int = 0){ts["sync"]}:
         log.append(["finally"])
 
 
-async def raw_async(a: Leaf, key: int = 0){ts["async"]}:
+async def raw_async({sig}){ts["async"]}:
     c = CTX[key]
     log = c["log"]
-    log.append(["entered", cn(a)])
+    log.append({ent})
     try:
         for act in c["script"]:
             k = act[0]
@@ -168,10 +204,10 @@ async def raw_async(a: Leaf, key: int = 0){ts["async"]}:
         log.append(["finally"])
 
 
-async def raw_co(a: Leaf, key: int = 0){ts["co"]}:
+async def raw_co({sig}){ts["co"]}:
     c = CTX[key]
     log = c["log"]
-    log.append(["entered", cn(a)])
+    log.append({ent})
     try:
         for act in c["script"]:
             k = act[0]
@@ -217,12 +253,17 @@ def generate(rng, tier):
             "late_types": rng.random() < 0.25}
     if plan["ctx"] != "class_deco" and rng.random() < 0.15:
         plan["ignore"] = rng.choice(["result", "params"])
+    # a richer signature: surplus positional values of a constrained type, a keyword-only parameter with a Param default
+    plan["rich"] = plan.get("ignore") != "params" and plan["ctx"] == "func" and rng.random() < 0.3
     ncons = rng.choice([1, 1, 2, 3])
     pool = [1, []]
     consumers = []
     for ci in range(ncons):
         c = {"arg": None, "body": [], "script": []}
         c["arg"] = _gen_value(rng, "Leaf", pool) if rng.random() < 0.92 else rng.choice(["zz", 3])
+        if plan["rich"]:
+            c["rest"] = [rng.choice([1, "2", 0, -3, "-1", 7]) for _ in range(rng.choice([0, 1, 2]))]
+            c["scale"] = rng.choice([None, None, 4, "5", "zz"])
         nb = rng.choice([1, 2, 3, 4])
         body = []
         for _ in range(nb):
@@ -315,8 +356,8 @@ def _conv(v, tname):
 class RefSync:
     """Ideal proxy around the undecorated sync generator function."""
 
-    def __init__(self, raw, ts, eager, arg, key):
-        self.raw, self.ts, self.arg, self.key = raw, ts, arg, key
+    def __init__(self, raw, ts, eager, arg, key, extra=None):
+        self.raw, self.ts, self.arg, self.key, self.extra = raw, ts, arg, key, extra
         self.gen = None
         self.state = "new"
         if eager:
@@ -325,10 +366,11 @@ class RefSync:
     def _start(self):
         try:
             a = _conv(self.arg, self.ts.get("A", "Leaf"))
+            rest, kw = ref_extras(self.extra, self.ts)
         except RefParseError:
             self.state = "dead"
             raise
-        self.gen = self.raw(a, self.key)
+        self.gen = self.raw(a, self.key, *rest, **kw)
         self.state = "started"
 
     def send(self, v):
@@ -380,8 +422,8 @@ class RefSync:
 
 
 class RefAsync:
-    def __init__(self, raw, ts, eager, arg, key):
-        self.raw, self.ts, self.arg, self.key = raw, ts, arg, key
+    def __init__(self, raw, ts, eager, arg, key, extra=None):
+        self.raw, self.ts, self.arg, self.key, self.extra = raw, ts, arg, key, extra
         self.gen = None
         self.state = "new"
         if eager:
@@ -390,10 +432,11 @@ class RefAsync:
     def _start(self):
         try:
             a = _conv(self.arg, self.ts.get("A", "Leaf"))
+            rest, kw = ref_extras(self.extra, self.ts)
         except RefParseError:
             self.state = "dead"
             raise
-        self.gen = self.raw(a, self.key)
+        self.gen = self.raw(a, self.key, *rest, **kw)
         self.state = "started"
 
     async def asend(self, v):
@@ -626,12 +669,29 @@ def execute(plan):
     ts = eff_ts(plan)
     kind = plan["kind"]
     info = {}
+    if plan.get("ctx") == "class_deco" and plan.get("ignore") != "params":
+        # every method of a decorated class is a decorated function: an omitted parameter is set to its default
+        try:
+            r = cn(mod.K.bare())
+        except Exception as e:  # noqa
+            r = ["exc", type(e).__name__]
+        if r != 7:
+            res.violate("C08|class_deco|binding|default_not_applied",
+                        f"K.bare() (def bare(n=Param(7, ge=0)) in a class decorated with @utype.parse) returned {kernel.clean_text(r, 80)}, the declared default is 7")
+    def extra(ci):
+        return (list(cons[ci].get("rest") or []), cons[ci].get("scale")) if plan.get("rich") else None
+
+    def dec_call(fn, ci):
+        ex = extra(ci)
+        if ex is None:
+            return fn(val(cons[ci]["arg"]), ci)
+        return fn(val(cons[ci]["arg"]), ci, *ex[0], **({} if ex[1] is None else {"scale": ex[1]}))
     if kind == "sync":
-        got = drive_sync(lambda ci: mod.dec_sync(val(cons[ci]["arg"]), ci), plan, 0)
-        ref = drive_sync(lambda ci: RefSync(mod.raw_sync, ts, plan["eager"], val(cons[ci]["arg"]), 100 + ci), plan, 100)
+        got = drive_sync(lambda ci: dec_call(mod.dec_sync, ci), plan, 0)
+        ref = drive_sync(lambda ci: RefSync(mod.raw_sync, ts, plan["eager"], val(cons[ci]["arg"]), 100 + ci, extra(ci)), plan, 100)
     elif kind == "async":
-        got, info = drive_async(lambda ci: mod.dec_async(val(cons[ci]["arg"]), ci), plan, 0)
-        ref, rinfo = drive_async(lambda ci: RefAsync(mod.raw_async, ts, plan["eager"], val(cons[ci]["arg"]), 100 + ci), plan, 100)
+        got, info = drive_async(lambda ci: dec_call(mod.dec_async, ci), plan, 0)
+        ref, rinfo = drive_async(lambda ci: RefAsync(mod.raw_async, ts, plan["eager"], val(cons[ci]["arg"]), 100 + ci, extra(ci)), plan, 100)
         res.stats["vtime_ms"] += int(info["vtime"] * 1000)
         res.stats["vsteps"] += info["iterations"]
     else:
@@ -640,16 +700,18 @@ def execute(plan):
             arg = val(cons[ci]["arg"])
             if plan["eager"]:
                 a = _conv(arg, ts["A"])
+                rest, kw = ref_extras(extra(ci), ts)
 
                 async def run():
-                    return _conv(await mod.raw_co(a, 100 + ci), ts.get("CR"))
+                    return _conv(await mod.raw_co(a, 100 + ci, *rest, **kw), ts.get("CR"))
                 return run()
 
             async def run_lazy():
                 a2 = _conv(arg, ts["A"])
-                return _conv(await mod.raw_co(a2, 100 + ci), ts.get("CR"))
+                rest2, kw2 = ref_extras(extra(ci), ts)
+                return _conv(await mod.raw_co(a2, 100 + ci, *rest2, **kw2), ts.get("CR"))
             return run_lazy()
-        got, info = drive_async(lambda ci: mod.dec_co(val(cons[ci]["arg"]), ci), plan, 0)
+        got, info = drive_async(lambda ci: dec_call(mod.dec_co, ci), plan, 0)
         ref, rinfo = drive_async(ref_co, plan, 100)
         res.stats["vtime_ms"] += int(info["vtime"] * 1000)
         res.stats["vsteps"] += info["iterations"]
@@ -742,7 +804,7 @@ def execute(plan):
             res.violate(f"C08|{tag}|body|resumed_after_parse_failure",
                         f"consumer {ci}: the body ran on after a conversion failure: {glog[failure_at:]}")
     if nontriv:
-        res.nontrivial = kernel.digest_of([plan["kind"], plan["eager"], plan["types"], plan.get("collect"), plan.get("ctx"), plan.get("late_types"), plan.get("ignore"), [[c["body"], c["script"]] for c in cons],
+        res.nontrivial = kernel.digest_of([plan["kind"], plan["eager"], plan["types"], plan.get("collect"), plan.get("ctx"), plan.get("late_types"), plan.get("ignore"), plan.get("rich"), [[c["body"], c.get("rest"), c.get("scale")] for c in cons] if plan.get("rich") else 0, [[c["body"], c["script"]] for c in cons],
                                            plan.get("interleave"), plan.get("loop", {}).get("mode"), plan.get("cancel")])
     CTX.clear()
     return res
